@@ -147,6 +147,9 @@ pub struct SyncEngine<T: Transport> {
     #[allow(dead_code)] // Planned feature: trash/recycle bin support
     trash: bool,
     force_delete: bool,
+    /// Ask on standard input before deleting more than 1000 files (not in watch mode: there is
+    /// nobody to ask inside the event loop)
+    confirm_mass_deletion: bool,
     quiet: bool,
     max_concurrent: usize,
     max_errors: usize,
@@ -231,6 +234,7 @@ impl<T: Transport + 'static> SyncEngine<T> {
             delete_threshold,
             trash,
             force_delete,
+            confirm_mass_deletion: true,
             quiet,
             max_concurrent,
             max_errors,
@@ -278,6 +282,15 @@ impl<T: Transport + 'static> SyncEngine<T> {
 
     fn should_exclude(&self, relative_path: &Path, is_dir: bool) -> bool {
         self.filter_engine.should_exclude(relative_path, is_dir)
+    }
+
+    /// For runs nobody attends (watch mode): the confirmation before a deletion of more than 1000
+    /// files is not asked for. The prompt blocked the event loop on standard input and, on end of
+    /// input, cancelled every later sync, so the destination never caught up with such a burst.
+    /// The percentage threshold of `--delete` still applies.
+    pub fn unattended(mut self) -> Self {
+        self.confirm_mass_deletion = false;
+        self
     }
 
     pub async fn sync(&self, source: &Path, destination: &Path) -> Result<SyncStats> {
@@ -669,7 +682,11 @@ impl<T: Transport + 'static> SyncEngine<T> {
                 }
 
                 // Check count threshold: warn if deleting many files
-                if deletions.len() > 1000 && !self.quiet && !self.json {
+                if deletions.len() > 1000
+                    && self.confirm_mass_deletion
+                    && !self.quiet
+                    && !self.json
+                {
                     eprintln!(
                         "⚠️  WARNING: About to delete {} files. Continue? [y/N] ",
                         deletions.len()
